@@ -37,3 +37,30 @@ package scheduler
 //@   mode nopanic=off
 //@   at[count] call scheduler.PartitionContext.decReservationCount#1: assert arg1 == num && 0 <= num && num <= 1 && (num == 1 ==> old(ask.allocationKey in app.reservations) && !(ask.allocationKey in app.reservations))
 //@   at[queue] call objects.Queue.UnReserve#1: assert arg0 == app.queue && arg1 == app.ApplicationID && arg2 == num
+
+// ================================================================ C03: node removal keeps queue and partition counters in step
+
+//@ spec abstract phcounted(a *objects.Allocation) bool
+
+//@ func (pc *PartitionContext) decPhAllocationCount(num int)
+//@   props C03
+//@   mode nopanic=off
+//@   requires num > -4611686018427387904 && num < 4611686018427387904
+//@   assigns pc.placeholderAllocations
+//@   ensures pc.placeholderAllocations == old(pc.placeholderAllocations) - num
+
+//@ global forall p *PartitionContext :: p.placeholderAllocations < 4611686018427387904 && p.placeholderAllocations > -4611686018427387904
+
+// every allocation taken off the removed node: the queue chain is decreased by exactly its size (or, for a
+// placeholder whose replacement already sits on another node, adjusted by real - placeholder), preempting resources
+// are given back for preempted ones, and every released placeholder is taken out of the placeholder counter
+//@ func (pc *PartitionContext) removeNodeAllocations(node *objects.Node) (released []*objects.Allocation, confirmed []*objects.Allocation)
+//@   props C03
+//@   sweep
+//@   mode nopanic=off
+//@   at[swapdelta] call objects.Queue.TryIncAllocatedResource#1: assert arg0 == queue && alloc.placeholder && (forall t Key :: rv(arg1, t) == clamp64(rv(release.allocatedResource, t) - rv(alloc.allocatedResource, t))) && (exists t Key :: rv(arg1, t) < 0)
+//@   at[dec] call objects.Queue.DecAllocatedResource#1: assert arg0 == queue && arg1 == alloc.allocatedResource
+//@   at[preempting] call objects.Queue.DecPreemptingResource#1: assert arg0 == queue && arg1 == alloc.allocatedResource && alloc.preempted
+//@   at[phcount] call scheduler.PartitionContext.decPhAllocationCount#* after: assume phcounted(alloc)
+//@   at[phcounted] append released#*: assert elem == alloc && (!alloc.placeholder || phcounted(alloc))
+//@   at[confirmed] append confirmed#1: assert elem == release && alloc.placeholder && alloc.nodeID != release.nodeID
